@@ -183,6 +183,7 @@ class Interp:
         self.objects: dict[int, SVar] = {}
         self._decided: dict = {}
         self.concrete_enums = False
+        self.stubs: dict = {}  # FuncInfo.fq -> callable(interp, args, kwargs, bound): replaces a repository function
         self.yielded: list = []
         self._enum_cache: dict = {}
 
@@ -254,6 +255,8 @@ class Interp:
     # ------------------------------------------------------------------
     # calling repository functions
     def call_function(self, fi: FuncInfo, args: list, kwargs: dict, bound=None, closure=None):
+        if self.stubs and fi.fq in self.stubs:
+            return self.stubs[fi.fq](self, list(args), dict(kwargs), bound)
         if self.depth >= self.MAX_DEPTH:
             raise AnalysisError(f'inlining depth exceeded at {fi.fq}')
         decs = fi.decorators()
@@ -412,6 +415,16 @@ class Interp:
                     self.assign(sub.value if isinstance(sub, ast.Starred) else sub, Opaque(f'{val.why}[i]'), env, mi)
                 return
             vals = self.iterate(val, t)
+            stars = [i for i, sub in enumerate(t.elts) if isinstance(sub, ast.Starred)]
+            if len(stars) == 1 and len(vals) >= len(t.elts) - 1:
+                i = stars[0]
+                n_after = len(t.elts) - i - 1
+                for sub, v in zip(t.elts[:i], vals[:i], strict=True):
+                    self.assign(sub, v, env, mi)
+                self.assign(t.elts[i].value, list(vals[i:len(vals) - n_after]), env, mi)
+                for sub, v in zip(t.elts[i + 1:], vals[len(vals) - n_after:], strict=True):
+                    self.assign(sub, v, env, mi)
+                return
             if len(vals) != len(t.elts):
                 if isinstance(val, list | tuple | str):
                     raise RaiseSignal('ValueError', t, self.where(t), (f'unpack: expected {len(t.elts)} values, got {len(vals)}',))
@@ -949,6 +962,8 @@ class Interp:
                 raise
             except Exception as ex:  # noqa: BLE001
                 raise AnalysisError(f'concrete call {fn.name} failed at {self.where(node)}: {ex}') from None
+        if type(fn).__name__ == '_Partial':
+            return self.call(fn.fn, [*fn.args, *args], {**fn.kwargs, **kwargs}, node)
         if isinstance(fn, Lambda):
             lenv = dict(fn.env)
             for p, a in zip(fn.node.args.args, args, strict=False):
